@@ -2,7 +2,74 @@
 // Copy to bitar/tests/ of a tree and run:  cargo test --offline -p bitar --features compress --test witness_findings
 // Each test FAILS (panics / wrong value) on the tree before the corresponding "fix:" commit and passes after it.
 use bitar::chunker::{Config, FilterBits, FilterConfig};
+use bitar::{archive_reader::IoReader, chunk_dictionary as dict, Archive};
 use futures_util::StreamExt;
+
+fn archive_bytes(params: dict::ChunkerParameters, descriptors: Vec<dict::ChunkDescriptor>, rebuild_order: Vec<u32>) -> Vec<u8> {
+    let d = dict::ChunkDictionary {
+        application_version: "witness".to_string(),
+        source_checksum: vec![0; 64],
+        source_total_size: descriptors.iter().map(|c| c.source_size as u64).sum(),
+        chunker_params: Some(params),
+        chunk_compression: Some(dict::ChunkCompression { compression: 0, compression_level: 0 }),
+        rebuild_order,
+        chunk_descriptors: descriptors,
+        metadata: Default::default(),
+    };
+    bitar::header::build(&d, None).unwrap()
+}
+
+fn params(algo: i32, bits: u32, min: u32, max: u32, window: u32) -> dict::ChunkerParameters {
+    dict::ChunkerParameters { chunk_filter_bits: bits, min_chunk_size: min, max_chunk_size: max,
+        rolling_hash_window_size: window, chunk_hash_length: 64, chunking_algorithm: algo }
+}
+
+async fn opens(bytes: Vec<u8>) -> bool {
+    Archive::try_init(IoReader::new(std::io::Cursor::new(bytes))).await.is_ok()
+}
+
+// K2: a header-valid archive with chunker parameters no chunker can work with must be rejected when
+// opened (before: accepted, and using the archive's chunker on seed data panics or never terminates).
+#[tokio::test]
+async fn k2_invalid_chunker_params_rejected() {
+    // (algorithm, bits, min, max, window)
+    let bad = [
+        (1, 10, 16, 1024, 0),   // RollSum window 0: index out of range on first input
+        (0, 10, 16, 1024, 0),   // BuzHash window 0
+        (1, 10, 0, 0, 16),      // max 0: endless empty chunks
+        (1, 0, 16, 1024, 16),   // filter bits 0: shift by 32
+        (1, 33, 16, 1024, 16),  // filter bits 33: 32 - 33 underflows
+        (1, 10, 2048, 1024, 16),// min > max
+        (0, 10, 0, 8, 16),      // BuzHash window > max: slice start > end
+        (2, 0, 0, 0, 0),        // fixed size 0: endless empty chunks
+    ];
+    for (a, b, mi, ma, w) in bad {
+        assert!(!opens(archive_bytes(params(a, b, mi, ma, w), vec![], vec![])).await,
+            "accepted invalid chunker parameters algo={a} bits={b} min={mi} max={ma} window={w}");
+    }
+    // sanity: valid ones are still accepted
+    assert!(opens(archive_bytes(params(1, 15, 16384, 16777216, 64), vec![], vec![])).await);
+    assert!(opens(archive_bytes(params(0, 15, 16384, 16777216, 64), vec![], vec![])).await);
+    assert!(opens(archive_bytes(params(2, 0, 0, 64, 0), vec![], vec![])).await);
+}
+
+// K5: rebuild_order entries must refer to existing chunk descriptors (before: accepted, and
+// iter_source_chunks / build_source_index index out of range).
+#[tokio::test]
+async fn k5_rebuild_order_out_of_range_rejected() {
+    let desc = dict::ChunkDescriptor { checksum: vec![1; 64], archive_size: 4, archive_offset: 0, source_size: 4 };
+    let bytes = archive_bytes(params(1, 15, 16384, 16777216, 64), vec![desc.clone()], vec![0, 7]);
+    match Archive::try_init(IoReader::new(std::io::Cursor::new(bytes))).await {
+        Err(_) => {}
+        Ok(archive) => {
+            // must at least not panic
+            let n = archive.iter_source_chunks().count();
+            panic!("archive with rebuild_order [0, 7] and one descriptor accepted ({n} chunks)");
+        }
+    }
+    let ok = archive_bytes(params(1, 15, 16384, 16777216, 64), vec![desc], vec![0, 0]);
+    assert!(opens(ok).await);
+}
 
 async fn chunk_all(cfg: Config, data: Vec<u8>) -> Vec<(u64, usize)> {
     let mut s = cfg.new_chunker(&data[..]);
